@@ -22,7 +22,7 @@ ASSUMPTIONS = [
     'center_mass / range / var setters: weights are enumerated exact rationals (symbolic weights make the nonlinear queries time out), positions symbolic, non-degenerate range/variance',
     'integrand f and failure indicator g are uninterpreted functions of the position tuple',
 ]
-BOUNDS = {'quick': dict(shapes='<=3 factors x <=3 points (8 shapes); statistics for <=6 product points, support sets for <=4'), 'thorough': dict(shapes='<=3 factors x <=3 points (all 39 shapes); statistics for <=6 product points, support sets for <=4')}
+BOUNDS = {'quick': dict(shapes='<=3 factors x <=3 points (8 shapes); statistics for <=6 product points, support sets for <=4'), 'thorough': dict(shapes='<=3 factors x <=3 points (all 39 shapes); statistics for <=4 product points (6 with <=2 factors), support sets for <=4')}
 BUDGET = {'quick': 400, 'thorough': 3600}
 
 SHAPES_Q = [(1,), (2,), (3,), (2, 2), (1, 3), (3, 2), (2, 1, 2), (1, 1, 1)]
@@ -332,7 +332,7 @@ def instances(tier, seed):
         npts = 1
         for n in sh:
             npts *= n
-        if npts <= 6:
+        if npts <= 4 or (npts <= 6 and len(sh) <= 2):
             out.append(Instance('statistics/%s' % tag, statistics(sh), context_free_first=True))
         if npts <= 4:
             out.append(Instance('support/%s' % tag, support_sets(sh)))
